@@ -5,7 +5,7 @@ from hv import hx
 RULE = ('mode {block, forbidden} x list contents (empty, the client, others, IPv4 and IPv6 entries) x route type {file, directory, '
         'proxy, redirect} x cache on/off x client source address in 127.0.0.0/8 or ::1 x X-Forwarded-For {absent, unlisted, '
         'listed, lists with spaces, unparsable entries}; non-trivial = the list names the client or a forwarded address')
-ASSUMPTIONS = ['IPv4-mapped IPv6 peers on a dual-stack listener are outside the model',
+ASSUMPTIONS = ['client source addresses: a fixed pool plus random addresses of 127.0.0.0/8 and ::1', 'IPv4-mapped IPv6 peers on a dual-stack listener are outside the model',
                'IPv6 text in X-Forwarded-For is parsed for the model by Python ipaddress (the theorems hold for every address '
                'parser; the driver instantiates it with the IPv4 model parser extended by that table); no zone ids, no '
                'IPv4-mapped forms']
@@ -33,8 +33,11 @@ def run(ctx):
         lines, meta, n = [ctx.replay['case']['line']], [None], 0
     for i in range(n):
         mode = rng.choice(['block', 'forbidden'])
-        v6 = rng.random() < 0.08
+        v6 = rng.random() < 0.15
         peer = '::1' if v6 else rng.choice(POOL[:4])
+        if not v6 and rng.random() < 0.4:
+            # any address of 127.0.0.0/8 is a loopback source address on Linux
+            peer = '127.%d.%d.%d' % (rng.randint(0, 255), rng.randint(0, 255), rng.randint(1, 254))
         lst = []
         r = rng.random()
         if r < 0.35:
